@@ -51,3 +51,17 @@ From BP Require Import Model.RejectZero Proofs.RejectZeroP.
 Theorem C13_rng_nonces_nonzero : forall (K : Fld), FldOk K -> forall (draws : list K) n, Forall (fun d => d <> f0 K) (take_nonzero K n draws).
 Proof. exact take_nonzero_nonzero. Qed.
 Print Assumptions C13_rng_nonces_nonzero.
+
+(** one transcript-RNG instance per challenge: the prover builds exactly 3 + rounds of them (wrapper set-up, y/z, one per folding round, final e),
+    the verifier one more (the proof's word for the weight transcript).  The check counts the instances in the instrumented merlin log against
+    this number and, under a stuck caller's generator, requires each to be keyed with exactly that generator's bytes *)
+From BP Require Import Model.Codec Model.Transcript Proofs.RngCountP.
+Theorem C13_prover_builds_one_rng_instance_per_challenge : forall s seeded p w ops,
+  prover_ops s seeded p w = Some ops -> count_rng ops = (3 + Nat.min (List.length (p_li p)) (List.length (p_ri p)))%nat.
+Proof. exact prover_rng_instances. Qed.
+Print Assumptions C13_prover_builds_one_rng_instance_per_challenge.
+
+Theorem C13_verifier_builds_one_rng_instance_per_challenge_and_one_for_the_weight : forall s p ops,
+  verifier_ops s p = Some ops -> count_rng ops = (4 + Nat.min (List.length (p_li p)) (List.length (p_ri p)))%nat.
+Proof. exact verifier_rng_instances. Qed.
+Print Assumptions C13_verifier_builds_one_rng_instance_per_challenge_and_one_for_the_weight.
